@@ -9,7 +9,9 @@
     element (finding F-C18-j: which of svg::script / html::script / the inert string renders it
     depends on siblings; compared by the harness only).  [KnownClass] = finding
     F-C18-f (a <title> with two text children), for which the statements are refuted below.
-    The model covers elements, attributes, class:/style: forms, text, blocks and fragments;
+    The model covers elements, attributes, class:/style: forms, attributes that are instructions to
+    the builder and render nothing (on:, prop:, use:, node_ref: one constructor [ASilent]), text,
+    blocks, fragments and comments ([NComment]: no view, but an element holding one is never inert);
     rstml parsing, token plumbing and component/slot expansion are outside it (compared only). *)
 From Coq Require Import List NArith Bool.
 From LV Require Import Base.Bytes Html.Macro Html.MacroParse Html.MacroAttrProofs Html.MacroProofs.
